@@ -52,6 +52,9 @@ def cases(rng, tier):
         full = (n <= 3) if tier == "quick" else (n <= 5)
         for (x, y, k) in _slices(n, rng, full):
             add(a, {"kind": "slice", "a0": x, "b0": y, "k": k}, dt="int64" if full else None)
+        # steps far beyond the array (and beyond 32 bits): one element, like any step >= the length
+        for k in rng.sample([2 ** 31 - 1, 2 ** 31, 2 ** 31 + 7, -(2 ** 31 - 2), -(2 ** 31), 2 ** 32 + 1, 2 ** 62, -(2 ** 62), 2 ** 63 - 1], 2):
+            add(a, {"kind": "slice", "a0": rng.choice([None, None, 0, 1, -1]), "b0": None, "k": k})
         for _ in range(3):
             kk = rng.randint(0, 4)
             bad = rng.random() < 0.2
